@@ -1,6 +1,6 @@
 SPECIFICATION GSpec
 CONSTANTS
-  MaxExtra = 4
+  MaxExtra = 3
   MaxExtraWhenMissing = 1
 INVARIANT Emit1
 CHECK_DEADLOCK FALSE
